@@ -23,6 +23,17 @@ fn tag(k: &str, v: J) -> J {
     J::Obj(vec![(k.to_string(), v)])
 }
 
+thread_local! {
+    /// set when the structure holds a variant of a library enum that did not exist when this
+    /// was written: its JSON cannot be predicted, the faithful comparison of that element is
+    /// skipped (well-formedness, determinism and the twin comparison still apply)
+    static UNPREDICTABLE: std::cell::Cell<bool> = const { std::cell::Cell::new(false) };
+}
+fn unpredictable() -> J {
+    UNPREDICTABLE.with(|c| c.set(true));
+    J::Null
+}
+
 /// f64 gets a marker the comparison resolves by re-parsing the literal
 fn fv(v: &FieldValue) -> J {
     match v {
@@ -38,6 +49,8 @@ fn fv(v: &FieldValue) -> J {
                 DataNumber::U64(x) => n(x),
                 DataNumber::U128(x) => n(x),
                 DataNumber::I32(x) => n(x),
+                #[allow(unreachable_patterns)]
+                _ => unpredictable(),
             },
         ),
         FieldValue::Float64(f) => tag("Float64", if f.is_finite() { J::Num(format!("f64:{}", f.to_bits())) } else { J::Null }),
@@ -48,6 +61,8 @@ fn fv(v: &FieldValue) -> J {
         FieldValue::Vec(b) => tag("Vec", bytes(b)),
         FieldValue::ProtocolType(p) => tag("ProtocolType", s(format!("{:?}", p))),
         FieldValue::Unknown(b) => tag("Unknown", bytes(b)),
+        #[allow(unreachable_patterns)]
+        _ => unpredictable(),
     }
 }
 
@@ -260,6 +275,8 @@ fn expected(p: &NetflowPacket) -> J {
                                                 v9::ScopeDataField::LineCard(b) => tag("LineCard", bytes(b)),
                                                 v9::ScopeDataField::NetFlowCache(b) => tag("NetFlowCache", bytes(b)),
                                                 v9::ScopeDataField::Template(b) => tag("Template", bytes(b)),
+                                                #[allow(unreachable_patterns)]
+                                                _ => unpredictable(),
                                             })
                                             .collect(),
                                     ),
@@ -275,6 +292,8 @@ fn expected(p: &NetflowPacket) -> J {
                                 ),
                             ]),
                         ),
+                        #[allow(unreachable_patterns)]
+                        _ => unpredictable(),
                     };
                     o(vec![
                         ("header", o(vec![("flowset_id", n(fs.header.flowset_id)), ("length", n(fs.header.length))])),
@@ -345,6 +364,8 @@ fn expected(p: &NetflowPacket) -> J {
                         ),
                         ipfix::FlowSetBody::Data(d) => tag("Data", o(vec![("fields", recs(&d.fields))])),
                         ipfix::FlowSetBody::OptionsData(d) => tag("OptionsData", o(vec![("fields", recs(&d.fields))])),
+                        #[allow(unreachable_patterns)]
+                        _ => unpredictable(),
                     };
                     o(vec![
                         ("header", o(vec![("header_id", n(fs.header.header_id)), ("length", n(fs.header.length))])),
@@ -378,9 +399,13 @@ fn expected(p: &NetflowPacket) -> J {
                 ),
                 NetflowParseError::UnallowedVersion(v) => tag("UnallowedVersion", n(v)),
                 NetflowParseError::UnknownVersion(b) => tag("UnknownVersion", bytes(b)),
+                #[allow(unreachable_patterns)]
+                _ => unpredictable(),
             };
             tag("Error", o(vec![("error", err), ("remaining", bytes(&e.remaining))]))
         }
+        #[allow(unreachable_patterns)]
+        _ => unpredictable(),
     }
 }
 
@@ -570,9 +595,12 @@ pub fn deliver(sim: &mut Sim, d: &Delivery) -> u64 {
                 return 1;
             }
         };
+        UNPREDICTABLE.with(|c| c.set(false));
         let exp = expected(el);
         let mut path = String::from("$");
-        if !same(&exp, &tree, &mut path) {
+        if UNPREDICTABLE.with(|c| c.get()) {
+            sim.stats.probe("element_with_variant_unknown_to_the_simulator");
+        } else if !same(&exp, &tree, &mut path) {
             sim.find("C16-json-differs-from-structure", d.ev, format!("element {}: JSON and decoded structure differ at {} ; text {}", i, path, super::trunc(&s1, 400)));
             return 1;
         }
